@@ -259,7 +259,7 @@ func protoCases(thorough bool) []caseT {
 	atoms := append(literalAtoms(thorough), nodeAtoms(thorough)...)
 	for _, a := range atoms {
 		for _, p := range placements(a) {
-			out = append(out, caseT{part: "c", name: p.fn, what: p.desc, req: request(p.node)})
+			out = append(out, caseT{part: "c", name: p.fn, what: p.desc, req: request(p.node), alone: a.node})
 		}
 	}
 	// request-level
